@@ -685,7 +685,7 @@ def main(argv=None):
         if tier == 'quick':
             profiles = ['small'] * 7 + ['big', 'meta', 'small']
         else:
-            profiles = (['small'] * 8 + ['big', 'meta']) * 15
+            profiles = (['small'] * 8 + ['big', 'meta']) * 11
         for i, p in enumerate(profiles):
             hists.append(('gen%d-%s' % (i, p), L.gen_history(ck.rng, p)))
     all_lines, expectations = [], []
